@@ -585,7 +585,7 @@ def run(tier, seed):
         "in_place_table_edits_checked": acc.n("edits"),
         "mid_step_weight_edits_checked": acc.n("midstep_edits"),
         "violating_instances": acc.n("violating_instances"),
-        "bound": f"tables of 1-2 moves over interval{{1,2,3}} x weight{{0,1,3}} x min{{0,1,2}}, tables of 3 moves over {'interval{1,2} x weight{0,1} x min{0,1}' if tier == 'quick' else 'interval{1,2,3} x weight{0,1,3} x min{0,1}'}; cycles 1-4; steps 0-6; every generator answer; distributions of attempt multisets compared; plus Canonical/Isobaric/Isotension/GrandCanonical with their two default moves set to 6x6 (interval, weight, minimum count) combinations after construction and after a rebuild from the dictionary, steps 0-2 reached through irun; add_move refusal over cycles 1-4 x intervals{1,2,3}^3 x minimum counts{0..3}^3, also with the run advanced by 1 or 3 steps",
+        "bound": f"tables of 1-2 moves over interval{{1,2,3}} x weight{{0,1,3}} x min{{0,1,2}}, tables of 3 moves over {'interval{1,2} x weight{0,1} x min{0,1}' if tier == 'quick' else 'interval{1,2,3} x weight{0,1,3} x min{0,1}'}; cycles 1-4; steps 0-6; every generator answer; distributions of attempt multisets compared; plus Canonical/Isobaric/Isotension/GrandCanonical with their two default moves set to 6x6 (interval, weight, minimum count) combinations after construction and after a rebuild from the dictionary, steps 0-2 reached through irun; add_move refusal over cycles 1-4 x intervals 1-3 (three moves) x minimum counts 0-3, also with the run advanced by 1 or 3 steps",
         "exhaustive": True,
         "samples": acc.samples[:3],
     }
